@@ -3,6 +3,7 @@
 //!   vh replay <Cxx> --in cases.ndjson --out trace.ndjson
 mod util;
 mod c02;
+mod c08;
 mod c11;
 mod c17;
 mod linalg2;
@@ -31,6 +32,7 @@ fn main() {
     util::quiet_panics();
     match (mode.as_str(), prop.as_str()) {
         ("gen", "C02") => c02::generate_c02(&a),
+        ("gen", "C08") => c08::generate(&a),
         ("gen", "C09") => c02::generate_c09(&a),
         ("gen", "C11") => c11::generate(&a),
         ("gen", "C17") => c17::generate(&a),
